@@ -195,6 +195,10 @@ func ParseSliceHeader(nalu []byte, spsMap map[uint32]*SPS, ppsMap map[uint32]*PP
 			if sliceType == SLICE_B {
 				sh.NumRefIdxL1ActiveMinus1 = uint32(r.ReadExpGolomb())
 			}
+			if sh.NumRefIdxL0ActiveMinus1 > maxNumRefIdxActiveMinus1 || sh.NumRefIdxL1ActiveMinus1 > maxNumRefIdxActiveMinus1 {
+				return nil, fmt.Errorf("num_ref_idx_active_minus1 %d/%d too big",
+					sh.NumRefIdxL0ActiveMinus1, sh.NumRefIdxL1ActiveMinus1)
+			}
 		} else {
 			sh.NumRefIdxL0ActiveMinus1 = uint32(pps.NumRefIdxI0DefaultActiveMinus1)
 			sh.NumRefIdxL1ActiveMinus1 = uint32(pps.NumRefIdxI1DefaultActiveMinus1)
@@ -352,6 +356,9 @@ func ParseSliceHeader(nalu []byte, spsMap map[uint32]*SPS, ppsMap map[uint32]*PP
 		pps.SliceGroupMapType <= 5 {
 		picSizeInMapUnits := pps.PicSizeInMapUnitsMinus1 + 1
 		sliceGroupChangeRate := pps.SliceGroupChangeRateMinus1 + 1
+		if sliceGroupChangeRate == 0 {
+			return nil, fmt.Errorf("slice_group_change_rate_minus1 %d too big", pps.SliceGroupChangeRateMinus1)
+		}
 		nrBits := int(math.Ceil(math.Log2(float64(picSizeInMapUnits/sliceGroupChangeRate + 1))))
 		sh.SliceGroupChangeCycle = uint32(r.Read(nrBits))
 	}
